@@ -83,6 +83,15 @@ REPLAY_PLANS = {
                   "thorough": [sim("U2", 500, 11, "Fam_C18", "NextSim_Measure", init="U2_Same"), sim("U3", 500, 11, "Fam_C18", "NextSim_Measure", init="U3_Same")]}),
 }
 
+REPLAY_PLANS["C15"] = dict(
+    actions={"op1", "opn", "opk"},
+    env={"VERIF_REUSE_OPS": "1"}, claims_actions=True,
+    exhaustive={"quick": [("U1", 4, "Fam_C01")], "thorough": [("U1", 5, "Fam_C01")]},
+    simulate={"quick": [sim("U1", 72, 12, "Fam_C15", "NextSim_Comp", ops="R"), sim("U2", 48, 12, "Fam_C15", "NextSim_Comp", ops="R"),
+                        sim("U3", 32, 12, "Fam_C15", "NextSim_Comp", ops="R")],
+              "thorough": [sim("U1", 600, 14, "Fam_C15", "NextSim_Comp", ops="R"), sim("U2", 400, 14, "Fam_C15", "NextSim_Comp", ops="R"),
+                           sim("U3", 300, 14, "Fam_C15", "NextSim_Comp", ops="R")]})
+
 
 TRACE_PLANS = {
     "C07": dict(
